@@ -3,6 +3,7 @@ package transports
 import (
 	"compress/flate"
 	"compress/gzip"
+	"errors"
 	"io"
 	"net/http"
 	"strconv"
@@ -166,8 +167,18 @@ func (p *polling) onDataRequest(ctx *types.HttpContext) {
 		packet = types.NewStringBuffer(nil)
 	}
 	if body := ctx.Request().Body; body != nil {
-		packet.ReadFrom(body)
+		// the declared length cannot be trusted and is absent for chunked
+		// bodies: stop reading at the limit
+		_, err := packet.ReadFrom(http.MaxBytesReader(ctx.Response(), body, p.MaxHttpBufferSize()))
 		body.Close()
+		var tooLarge *http.MaxBytesError
+		if errors.As(err, &tooLarge) {
+			cleanup()
+
+			ctx.SetStatusCode(http.StatusRequestEntityTooLarge)
+			ctx.Write(nil)
+			return
+		}
 	}
 	p.Proto().OnData(packet)
 
